@@ -560,8 +560,6 @@ theorem C12_holds (env : Env) (cands : List Nat) (s : Screen) (c : Call) (h : In
         refine ⟨⟨⟨⟨?_, b⟩, fun y x hy hx => decide_eq_true (d y x hy hx)⟩, e⟩, f⟩
         rw [a]
 
-theorem dispatch_SM (ps : List Nat) (p : Bool) : csiDispatch 104 ps p = [.setMode ps p] := by rfl
-theorem dispatch_RM (ps : List Nat) (p : Bool) : csiDispatch 108 ps p = [.resetMode ps p] := by rfl
 
 /-- non-vacuity: SM ?3 on a 10x3 screen gives 132 columns, RM ?3 gives 10 back -/
 example :
